@@ -133,3 +133,8 @@ Definition key_move_b (p : Position) (m : Mv) : bool :=
          && (if m_from m <? m_to m then us_ksc p else us_qsc p)
          && implb' (us_ksc p) (m_from m <? sq_of (cf0 p) 0)
          && implb' (us_qsc p) (sq_of (cf1 p) 0 <? m_from m)).
+
+(* executable premises of the attack-query theorem (C08): boards below 2^64, one man at most per square, one king a side *)
+Definition attack_pre_b (p : Position) : bool :=
+  bb8_b p && forallb (wf_b p) sq64_list
+  && (popcount (N.land (kings p) (c_us p)) =? 1) && (popcount (N.land (kings p) (c_them p)) =? 1).
